@@ -1,0 +1,95 @@
+//go:build verif
+
+package remote
+
+import (
+	"context"
+	"io"
+	"net/http"
+	"sync"
+	"time"
+
+	"github.com/containerd/containerd/v2/pkg/reference"
+	"github.com/containerd/stargz-snapshotter/fs/source"
+	ocispec "github.com/opencontainers/image-spec/specs-go/v1"
+)
+
+// Hooks for property C18 (header confinement of the HTTP fetcher).
+
+var (
+	verifSchedMu   sync.Mutex
+	verifSchedHook func(where string)
+)
+
+// VerifSetSchedHook installs a callback invoked at the scheduling points of httpFetcher
+// (directly after the fetcher's target has been read under urlMu in fetch and check).
+// The verification harness uses it to park the calling goroutine and run another one.
+func VerifSetSchedHook(h func(where string)) {
+	verifSchedMu.Lock()
+	verifSchedHook = h
+	verifSchedMu.Unlock()
+}
+
+func verifSchedPoint(where string) {
+	verifSchedMu.Lock()
+	h := verifSchedHook
+	verifSchedMu.Unlock()
+	if h != nil {
+		h(where)
+	}
+}
+
+// VerifHTTPFetcher gives the harness the unexported httpFetcher API.
+type VerifHTTPFetcher struct{ f *httpFetcher }
+
+// VerifNewHTTPFetcher runs newHTTPFetcher (initial resolution + size probe).
+func VerifNewHTTPFetcher(ctx context.Context, hosts source.RegistryHosts, refspec reference.Spec, desc ocispec.Descriptor) (*VerifHTTPFetcher, int64, error) {
+	f, size, err := newHTTPFetcher(ctx, &fetcherConfig{
+		hosts:      hosts,
+		refspec:    refspec,
+		desc:       desc,
+		maxRetries: 1,
+		minWait:    time.Millisecond,
+		maxWait:    time.Millisecond,
+	})
+	if err != nil {
+		return nil, 0, err
+	}
+	return &VerifHTTPFetcher{f}, size, nil
+}
+
+// Fetch calls httpFetcher.fetch for the regions [b,e] and drains the result.
+func (v *VerifHTTPFetcher) Fetch(ctx context.Context, regs [][2]int64, retry bool) error {
+	var rs []region
+	for _, r := range regs {
+		rs = append(rs, region{r[0], r[1]})
+	}
+	mr, err := v.f.fetch(ctx, rs, retry)
+	if err != nil {
+		return err
+	}
+	defer mr.Close()
+	for {
+		_, r, err := mr.Next()
+		if err == io.EOF {
+			return nil
+		}
+		if err != nil {
+			return err
+		}
+		if _, err := io.Copy(io.Discard, r); err != nil {
+			return err
+		}
+	}
+}
+
+func (v *VerifHTTPFetcher) Check() error { return v.f.check() }
+
+// State returns the fetcher's current target, the headers it will send there, the blob URL on the
+// registry host, the headers configured for that host, and the single-range flag.
+func (v *VerifHTTPFetcher) State() (url string, header http.Header, blobURL string, orgHeader http.Header, single bool) {
+	v.f.urlMu.Lock()
+	url, header = v.f.url, v.f.header
+	v.f.urlMu.Unlock()
+	return url, header, v.f.blobURL, v.f.orgHeader, v.f.isSingleRangeMode()
+}
